@@ -54,14 +54,15 @@ h4_from = [h4i("from_sha1_33", MODE=1, NBIN=33, ALGBYTE="0x00", WIT_ACCEPT=1), h
 h4_from_t = h4_from + [h4i("from_ripemd_33", MODE=1, NBIN=33, ALGBYTE="0x02", WIT_ACCEPT=1), h4i("from_sha384_61", MODE=1, NBIN=61, ALGBYTE="0x04", WIT_ACCEPT=1),
                        h4i("from_sha512_77", MODE=1, NBIN=77, ALGBYTE="0x05", WIT_ACCEPT=1), h4i("from_sha3_224_41", MODE=1, NBIN=41, ALGBYTE="0x07", WIT_ACCEPT=1),
                        h4i("from_sm3_45", MODE=1, NBIN=45, ALGBYTE="0x0b", WIT_ACCEPT=1), h4i("from_unknown_06", MODE=1, NBIN=13, ALGBYTE="0x06", WIT_UNKNOWN_ALG=1),
-                       h4i("from_unknown_7e", MODE=1, NBIN=45, ALGBYTE="0x7e", WIT_UNKNOWN_ALG=1), h4i("from_len76_sha512", MODE=1, NBIN=76, ALGBYTE="0x05", WIT_WRONG_LEN=1)]
+                       h4i("from_unknown_7e", MODE=1, NBIN=45, ALGBYTE="0x7e", WIT_UNKNOWN_ALG=1), h4i("from_len76_sha512", MODE=1, NBIN=76, ALGBYTE="0x05", WIT_WRONG_LEN=1),
+                       h4i("from_sha3_512_77", MODE=1, NBIN=77, ALGBYTE="0x0a", WIT_ACCEPT=1), h4i("from_sha3_384_61", MODE=1, NBIN=61, ALGBYTE="0x09", WIT_ACCEPT=1), h4i("from_sha3_256_45", MODE=1, NBIN=45, ALGBYTE="0x08", WIT_ACCEPT=1)]
 h4_to = [h4i("to_sha1_33", MODE=2, NBIN=33, ALGBYTE="0x00"), h4i("to_sha256_45", MODE=2, NBIN=45, ALGBYTE="0x01")]
 h4_to_t = h4_to + [h4i("to_sha384_61", MODE=2, NBIN=61, ALGBYTE="0x04"), h4i("to_sha512_77", MODE=2, NBIN=77, ALGBYTE="0x05"), h4i("to_ripemd_33", MODE=2, NBIN=33, ALGBYTE="0x02")]
 h4 = {"name": "h4_pubstring", "src": "h4_pubstring.c", "env": ["ctx", "hash_model", "list_wrap", "fmt_stub"], "tus": ["publicationsfile", "hash", "types_base"],
       "unwind": 10, "harness_unwind": 100, "timeout": 300, "mem_gb": 8, "object_bits": 12,
       "functions": ["KSI_PublicationData_fromBase32", "KSI_PublicationData_toBase32", "KSI_PublicationData_new", "KSI_PublicationData_free", "KSI_DataHash_fromImprint", "KSI_getHashLength"],
-      "bound": "binary lengths 0, 4, 12, 13, 33, 44, 45, 46 (thorough also 41, 61, 76, 77), algorithm byte concrete per instance (SHA-1, SHA2-256, withdrawn 0x03, unassigned 0x0c, 0xff; thorough more), time / digest / stored CRC / CRC value symbolic; base32 codec and CRC replaced by recording models",
-      "instances": h4_from + h4_to, "thorough": {"instances": h4_from_t + h4_to_t}}
+      "bound": "binary lengths 0, 4, 12, 13, 33, 41, 44, 45, 46, 61, 76, 77, algorithm byte concrete per instance (every algorithm libksi knows: SHA-1, SHA2-256/384/512, RIPEMD-160, SHA3-224/256/384/512, SM3; withdrawn 0x03, reserved 0x06, unassigned 0x0c, 0x7e, 0xff), time / digest / stored CRC / CRC value symbolic; base32 codec and CRC replaced by recording models",
+      "instances": h4_from_t + h4_to_t, "thorough": {"instances": h4_from_t + h4_to_t}}
 
 plan = {"property": "C17",
         "outside": "KSI_base32Decode's loop on a string with more than one symbolic character (every symbolic character is a possible '=' / '-' / foreign byte for symbolic execution; 13 such characters time out); the end-to-end single query 'mutate any symbol of any valid string' (replaced by the lemma decomposition); separator placement inside '=' padding; CRC-32 over whole symbolic messages longer than 3 bytes (induction by hand from lemmas 1-3)",
